@@ -1,5 +1,6 @@
 import TbotVerif.Props.FilesWrite
 import TbotVerif.Props.FilesText
+import TbotVerif.Props.FilesB64
 /-! C11 — file contents written through a `Path` are read back identically.
 
     The model run `Files.run cd c pw pr` composes the channel model with the remote model: the
@@ -506,5 +507,53 @@ theorem spec_holds (cd : Codec) (hcd : CodecOk cd) (c : Files.Case) (pw pr : Lis
           obtain ⟨h1, h2, h3, _⟩ := text_roundtrip cd c t hd hwf hdom pw pr
           simp only [h1, h2, h3, beq_self_eq_true, Bool.true_and]
           cases fastPath (enc t) <;> simp
+
+/-! ### the concrete codec, non-vacuity, witnesses -/
+
+/-- C11 for the codec the driver runs -/
+theorem spec_holds_b64 (c : Files.Case) (pw pr : List Nat) : Spec.C11 c (Files.run b64 c pw pr) = true :=
+  spec_holds b64 b64_ok c pw pr
+
+/-- `write_bytes d ; read_bytes` with the concrete codec, for EVERY byte string and fragmentation -/
+theorem bytes_roundtrip_b64 (c : Files.Case) (d : Bytes) (hd : c.data = .bytes d) (hwf : c.wf = true) (pw pr : List Nat) :
+    (Files.run b64 c pw pr).ret = .n d.length ∧ (Files.run b64 c pw pr).file = some d
+      ∧ (Files.run b64 c pw pr).back = .bytes d :=
+  let ⟨h1, h2, h3, _⟩ := bytes_roundtrip b64 b64_ok c d hd hwf pw pr
+  ⟨h1, h2, h3⟩
+
+/-- a multi-line, non-ASCII text without final newline, into a file whose name needs quoting, on
+    dash with 3-byte reads: well-formed and in the domain -/
+def exText : Files.Case :=
+  { ash := true, chunk := 3, data := .text "hé\nwörld ✓".toList, path := str "/tmp/it's a file" }
+
+example : exText.wf = true ∧ textOk exText "hé\nwörld ✓".toList = true ∧ fastPath (enc "hé\nwörld ✓".toList) = false := by
+  decide +kernel
+
+/-- … and the theorem applied to it with a 1-byte / 2-byte / 5-byte fragmentation -/
+example : (Files.run b64 exText [1, 2, 5, 1, 1, 700] [2, 2, 2]).back = .text "hé\nwörld ✓".toList :=
+  (text_roundtrip b64 exText _ rfl (by decide +kernel) (by decide +kernel) _ _).2.2.1
+
+/-- all 256 byte values, on bash -/
+def exBytes : Files.Case :=
+  { ash := false, chunk := 4096, data := .bytes ((List.range 256).map UInt8.ofNat), path := str "/tmp/f" }
+
+example : exBytes.wf = true := by decide +kernel
+
+example : (Files.run b64 exBytes [7, 7, 7] []).file = some ((List.range 256).map UInt8.ofNat) :=
+  (bytes_roundtrip_b64 exBytes _ rfl (by decide +kernel) _ _).2.1
+
+/-- empty text, only newlines, the empty byte string -/
+example : textOk { exText with data := .text [] } [] = true ∧ textOk exText ['\n', '\n'] = true := by decide +kernel
+
+/-- the double-EOF rule is needed: after text without a final newline a single `^D` only flushes the
+    line, `tee` goes on reading and swallows `echo $?` — the session never completes -/
+example : Remote.ttyRead [] ([97, 98, EOT] ++ (echoStatusLine ++ [Tty.CR])) = none := by decide +kernel
+example : Remote.ttyRead [] ([97, 98, EOT, EOT] ++ (echoStatusLine ++ [Tty.CR])) = some ([97, 98], echoStatusLine ++ [Tty.CR]) := by
+  decide +kernel
+
+/-- the domain condition "the prompt does not occur in the text" is needed: such a text makes
+    `run()`'s death string fire on the echo, `write_text` raises `CommandEndedException` -/
+example : (Files.run b64 { exText with ash := false, data := .text ('x' :: '\n' :: (Params.bashPrompt.map toChar) ++ ['\n']) }
+    [] []).ret = .err ("death/1/" ++ Bytes.toHex Params.bashPrompt) := by decide +kernel
 
 end C11
